@@ -361,8 +361,41 @@ def rule_f(ctx):
     return r
 
 
+def rule_g(ctx):
+    r = RuleResult("C01-g", "re-lexed interpolated text: Lexer::new_from_string marks the lexer as expanded by comparing the text's *byte* length with the source span "
+                   "(token positions are byte offsets; with a character/token count a multi-byte text overruns Span::subspan, which asserts)")
+    prog = ctx.prog()
+    b = prog.one("lexer::Lexer::new_from_string")
+    news = [c for c in b.calls() if (c.name() or "").endswith("lexer::Lexer::new")]
+    if len(news) != 1:
+        raise AnchorMissing("Lexer::new_from_string: expected one call of Lexer::new")
+    flag = news[0].args[2]
+    ok = False
+    why = "?"
+    if flag.place is not None:
+        for bb, i, d in b.defs_of(flag.place.local):
+            src = d
+            if isinstance(d, dict) and d["k"] == "use" and "p" in d["op"]:
+                ds = b.defs_of(d["op"]["p"]["l"])
+                src = ds[0][2] if len(ds) == 1 else d
+            if isinstance(src, dict) and src.get("k") == "binop" and src["op"] in ("Gt", "Lt", "Ge", "Le"):
+                x, y = an.trace_operand(b, Operand(src["a"])), an.trace_operand(b, Operand(src["b"]))
+                sides = {repr(x).split("@")[0], repr(y).split("@")[0]}
+                why = sorted(sides)
+                left = x if "Span::len" not in repr(x) and "len()" in repr(x) else y
+                lc = b.call_at(left.root[2]) if left.root[0] == "call" else None
+                if lc is not None and (lc.callee or "").endswith("str::<impl str>::len") and an.trace_operand(b, lc.args[0]).root == ("arg", 1):
+                    ok = any("Span::len" in s_ or "span::Span::len" in s_ or "len()" in s_ for s_ in sides)
+    if ok:
+        r.ok("new_from_string|is_expanded-compares-bytes")
+    else:
+        r.violate("new_from_string|is_expanded-compares-bytes", "Lexer::new_from_string no longer derives is_expanded from `s.len()` (bytes) against the span length (compared: %s): "
+                  "for multi-byte interpolated text whose character count fits the span but whose byte length does not, span lookups hit codemap's subspan assertion and panic" % (why,), b.loc())
+    return r
+
+
 import os as _os
 
 RULES = [rule_a, rule_b, rule_d]
 if _os.path.exists(_os.path.join(_os.path.dirname(__file__), "loops.py")):
-    RULES = [rule_a, rule_b, rule_c, rule_d, rule_e, rule_f]
+    RULES = [rule_a, rule_b, rule_c, rule_d, rule_e, rule_f, rule_g]
